@@ -141,13 +141,23 @@ Definition c09_texts_ok (t : Z) (res : list (list Z * option Z)) : bool :=
 Definition c09_ok (t : Z) (res : list (list Z * option Z)) : bool :=
   negb (in_range t) || all2 (fun k r => text_ok k t (fst r) && back_ok k t (fst r) (snd r)) kinds res.
 
-(* oracle for a parse case: a text that is a well-formed rendering of something in range must
-   give exactly what it denotes; nothing is required for other texts *)
+(* oracle for a parse case: every text -- well-formed or not -- must yield a field (r = the ticks
+   stored; None = the constructor trapped or read outside the text), and a text that is a
+   well-formed rendering of something in range must give exactly what it denotes *)
 Definition c09_parse_ok (k : skind) (s : list Z) (r : option Z) : bool :=
-  match denote k s with
-  | Some v => if in_range v then (match r with Some x => x =? v | None => false end) else true
-  | None => true
+  match r with
+  | None => false
+  | Some x =>
+    match denote k s with
+    | Some v => if in_range v then x =? v else true
+    | None => true
+    end
   end.
+
+(* the number of characters the constructors read unconditionally, minus the terminating NUL they
+   may touch: shorter texts are read past their end *)
+Definition min_text_len (k : skind) : nat :=
+  match k with S_TS => 16%nat | S_TO => 7%nat | _ => 5%nat end.
 
 (* ------------------------------------------------------------------ log timestamps *)
 (* "YYYY-MM-DD HH:MM:SS" or "YYYY-MM-DD HH:MM:SS.f{d}" -> date, time, fraction *)
